@@ -97,3 +97,37 @@ Fixpoint run (s : state) (ops : list op) : state * list out :=
 (** MultiEpochHooks with [k] registered hooks: every call reaches hook 0, 1, …, k-1 in slice order *)
 Definition fanout (k : nat) (l : list hook) : list (nat * hook) :=
   flat_map (fun c => map (fun r => (r, c)) (seq 0 k)) l.
+
+(* ---------------------------------------------------------------- a failing hook receiver *)
+
+(** One of the registered hook receivers panics when it receives a chosen call, the first [left] times.
+    The keeper wrappers and MultiEpochHooks do not recover (Gen/C14Facts.v), so the panic leaves
+    BeginBlocker: the block is not committed — no EpochInfo change, no hook effect. *)
+Record trigger := { g_id : nat; g_n : Z; g_end : bool (* true: AfterEpochEnd, false: BeforeEpochStart *) }.
+
+Definition hook_matches (g : trigger) (x : hook) : bool :=
+  match x with
+  | AfterEnd i n => g_end g && Nat.eqb i (g_id g) && (n =? g_n g)
+  | BeforeStart i n => negb (g_end g) && Nat.eqb i (g_id g) && (n =? g_n g)
+  end.
+
+Definition step_f (g : trigger) (sl : state * nat) (o : op) : (state * nat) * out :=
+  let '(s, lf) := sl in
+  match o with
+  | Block t h =>
+      let '(s', l) := begin_block s t h in
+      match lf with
+      | S lf' =>
+          if existsb (hook_matches g) l
+          then ((s, lf'), {| o_ok := false; o_infos := s; o_hooks := [] |})      (* aborted: nothing committed *)
+          else ((s', lf), {| o_ok := true; o_infos := s'; o_hooks := l |})
+      | O => ((s', lf), {| o_ok := true; o_infos := s'; o_hooks := l |})
+      end
+  | Add ct ch a => let '(s', ok) := add_epoch s ct ch a in ((s', lf), {| o_ok := ok; o_infos := s'; o_hooks := [] |})
+  end.
+
+Fixpoint run_f (g : trigger) (sl : state * nat) (ops : list op) : (state * nat) * list out :=
+  match ops with
+  | [] => (sl, [])
+  | o :: r => let '(sl1, x) := step_f g sl o in let '(sl2, xs) := run_f g sl1 r in (sl2, x :: xs)
+  end.
